@@ -69,10 +69,18 @@ def rand_ops(rng, dim):
     return out
 
 
-def apply_np(R, X):
+def apply_np(R, X, carrier="Operator"):
+    """R.apply() on the matrix X held by an object of the given class (density-matrix classes are filled after construction,
+    as in the package's own tests: rho = ReducedDensityMatrix(dim=N); rho.data[1,2] = 1.0)"""
     import quantarhei as qr
     with contextlib.redirect_stdout(io.StringIO()):
-        return numpy.array(R.apply(qr.qm.Operator(data=numpy.array(X, dtype=complex))).data)
+        Xc = numpy.array(X, dtype=complex)
+        if carrier == "Operator":
+            op = qr.qm.Operator(data=Xc)
+        else:
+            op = (qr.ReducedDensityMatrix if carrier == "ReducedDensityMatrix" else qr.DensityMatrix)(dim=Xc.shape[0])
+            op.data = Xc
+        return numpy.array(R.apply(op).data)
 
 
 def run_case(case, ctx):
@@ -103,11 +111,19 @@ def run_case(case, ctx):
             with ctx.lib("apply() in both forms " + name, mechanism=None):
                 with cm():
                     for (okind, X) in ops:
-                        a = apply_np(Ro, X)
-                        b = apply_np(Rt, X)
-                        r = float(numpy.max(numpy.abs(a - b))) / (float(numpy.max(numpy.abs(X))) + 1e-300)
-                        if r > worst:
-                            worst, wk = r, okind
+                        for carrier in ("Operator", "ReducedDensityMatrix", "DensityMatrix"):
+                            a = apply_np(Ro, X, carrier)
+                            b = apply_np(Rt, X, carrier)
+                            r = float(numpy.max(numpy.abs(a - b))) / (float(numpy.max(numpy.abs(X))) + 1e-300)
+                            if r > worst:
+                                worst, wk = r, okind + " held by " + carrier
+                            if carrier != "Operator":
+                                # the action does not depend on the class that carries the matrix
+                                r2 = float(numpy.max(numpy.abs(a - a_op))) / (float(numpy.max(numpy.abs(X))) + 1e-300)
+                                if r2 > worst:
+                                    worst, wk = r2, okind + ": " + carrier + " vs Operator (operator form)"
+                            else:
+                                a_op = a
                     To = tensors.tensor_by_apply(Ro, dim)
                     Tb = tensors.tensor_by_apply(Rt, dim)
             ctx.check("apply:operators==tensor", worst, 1e-12 * sc * dim * dim, dict(det, basis=name, operator=wk))
